@@ -11,8 +11,8 @@ from .. import common
 from ..common import TieBroken, coq_bytes, coq_list
 
 FIX = os.path.join(common.REPO, "sdk", "tests", "fixtures")
-P61 = (1 << 61) - 1
-PB = 1000003
+M64 = (1 << 64) - 1
+PB = 33
 
 COQ_IMPORTS = ("From C2PA Require Import Base.Bytes Model.Container Model.ContPng Model.ContJpeg Model.ContGif "
                "Model.ContRiff Model.ContRun.\nFrom Coq Require Import NArith List.\nImport ListNotations.\nOpen Scope N_scope.")
@@ -40,7 +40,7 @@ def family(fmt):
 def poly_hash(b):
     h = 0
     for x in b:
-        h = (h * PB + x + 1) % P61
+        h = (h * PB + x + 1) & M64
     return h
 
 
@@ -698,11 +698,18 @@ def harness_case(c, prop_dump=None):
     return h
 
 
-def compare_with_model(ctx, cases, impl, prop):
-    """correspondence: model (run0) vs harness, step by step; only cases with inline assets of modelled formats"""
+def compare_with_model(ctx, cases, impl, prop, limit=None):
+    """correspondence: model (run0) vs harness, step by step; only cases with inline assets of modelled formats.
+    limit: evaluate at most that many cases in the model (evenly spaced, corpus and 'must' cases first) — quick tier"""
     todo = [c for c in cases if c["fmt"] in MODELLED and "hex" in c["asset"] and not c.get("no_model")]
     if not todo:
         return 0
+    if limit is not None and len(todo) > limit:
+        must = [c for c in todo if c.get("grp") in (None, "corpus", "boundary", "special", "short", "exh")]
+        rest = [c for c in todo if c not in must]
+        k = max(0, limit - len(must))
+        step = max(1, len(rest) // max(1, k))
+        todo = must + rest[::step][:k]
     big = [c for c in todo if any("gen" in o.get("s", {}) and o["s"]["gen"][0] > 4000 for o in c["ops"]) or len(c["asset"]["hex"]) > 8000]
     small = [c for c in todo if c not in big]
     res = {}
@@ -863,7 +870,7 @@ def execute(ctx, prop, cases, with_model=True):
     d = dump_dir(prop)
     hc = [harness_case(c, d if ("fixture" in c["asset"] or c.get("dump")) else None) for c in cases]
     impl = common.run_harness(prop.lower(), hc, timeout=2400)
-    n = compare_with_model(ctx, cases, impl, prop) if with_model else 0
+    n = compare_with_model(ctx, cases, impl, prop, limit=(300 if ctx.quick() else None)) if with_model else 0
     return impl, n
 
 
